@@ -9,12 +9,12 @@ B="$(mktemp -d /var/tmp/ufw-baseline.XXXXXX)"
 trap 'rm -rf "$B"' EXIT
 if ! cmake -G Ninja -S "$SRC" -B "$B" > "$B/configure.log" 2>&1; then cat "$B/configure.log"; echo "baseline: configure failed"; exit 2; fi
 if ! cmake --build "$B" > "$B/build.log" 2>&1; then tail -50 "$B/build.log"; echo "baseline: build failed"; exit 2; fi
-ctest --test-dir "$B" -j8 --timeout 900 > "$B/ctest.log" 2>&1
+ctest --test-dir "$B" -j8 --timeout ${BASELINE_TIMEOUT:-900} > "$B/ctest.log" 2>&1
 CT=$?
 tail -4 "$B/ctest.log"
 # per-subtest comparison with the pinned baseline
 : > "$B/tap.log"
-for t in "$B"/test/t-*; do [ -x "$t" ] && [ -f "$t" ] && "$t" >> "$B/tap.log" 2>&1; done
+for t in "$B"/test/t-*; do [ -x "$t" ] && [ -f "$t" ] && timeout 120 "$t" >> "$B/tap.log" 2>&1; done
 python3 - "$B/tap.log" <<'PY'
 import json, re, sys
 tap = open(sys.argv[1], errors='replace').read().splitlines()
